@@ -6,7 +6,7 @@ cd "$(dirname "$0")"
 . ./env.sh
 mkdir -p build evidence replays coq/Gen
 if [ -f translate/main.go ]; then
-  (cd translate && $GO build -o ../build/translate . && ../build/translate -repo /repo -out ../coq/Gen)
+  (cd translate && $GO build -o ../build/translate . && ../build/translate -repo /repo -out ../coq/Gen -harness ../harness)
 fi
 (cd coq && coq_makefile -f _CoqProject -o Makefile >/dev/null && timeout 7200 make -j16)
 (cd ocaml && coqc -Q ../coq Sia ../coq/Extract/Extract.v && ocamlfind ocamlopt -O3 -w -a -o ../build/model blake2b.ml model.mli model.ml driver.ml)
